@@ -210,5 +210,44 @@ impl ContainerValues {
 //@ end-fn
 //@ end-impl
 
+// ---- reporting a container rebuilt in place as dirty (incremental rebuild path) ----------------------------
+use std::hash::Hash;
+pub trait ContainerValue: Hash + Eq {}
+#[verifier::external_body]
+pub struct ExecutionState { _p: core::marker::PhantomData<u8> }
+/// A-hash: dashmap::DashMap (only `remove` is used by the function under contract)
+#[verifier::external_body]
+#[verifier::accept_recursive_types(K)]
+#[verifier::accept_recursive_types(V)]
+pub struct DashMap<K, V> { _p: core::marker::PhantomData<(K, V)> }
+impl<K, V> DashMap<K, V> {
+    #[verifier::external_body]
+    pub fn remove(&self, k: &K) -> Option<(K, V)> { unimplemented!() }
+}
+
+//@ item core-relations/src/containers/mod.rs struct ContainerEnv only to_id to_container
+
+/// A-db: the id under which `insert_owned` leaves the container (hash-consing + merge of ids)
+pub uninterp spec fn inserted_id<C>(c: C, value: Value) -> Value;
+impl<C: ContainerValue> ContainerEnv<C> {
+    #[verifier::external_body]
+    pub fn insert_owned(&self, container: C, value: Value, exec_state: &mut ExecutionState) -> (r: Value)
+        ensures r == inserted_id(container, value)
+    { unimplemented!() }
+}
+
+//@ impl core-relations/src/containers/mod.rs impl<C: ContainerValue> ContainerEnv<C>
+//@ fn reinsert_incremental
+//@ at sig
+        ensures
+            forall|v: Value| old(summary).dirty_ids@.contains(v) ==> final(summary).dirty_ids@.contains(v),
+            old(summary).changed ==> final(summary).changed,
+            container_changed || rebuilt_id != old_id ==> final(summary).changed,
+            // C14/C03: a container whose contents were rebuilt IN PLACE (same id before and after re-interning) produces no
+            // ordinary table delta, so it must be reported dirty for its parent rows to be re-timestamped
+            container_changed && rebuilt_id == old_id && inserted_id(container, rebuilt_id) == old_id ==> final(summary).dirty_ids@.contains(old_id),
+//@ end-fn
+//@ end-impl
+
 } // verus!
 fn main() {}
